@@ -24,6 +24,8 @@ func init() {
 			{Name: "query-ltime-missing", File: "cmd/serf/command/agent/invoke.go", Func: "func invokeEventScript(", Old: "\t\tcmd.Env = append(cmd.Env, fmt.Sprintf(\"SERF_QUERY_LTIME=%d\", e.LTime))\n", New: "", Expect: "R3"},
 			{Name: "respond-on-failure", File: "cmd/serf/command/agent/invoke.go", Func: "func invokeEventScript(", Old: "\tif err != nil {\n\t\treturn err\n\t}\n\n\t// If this is a query and we have output, respond\n", New: "\t// If this is a query and we have output, respond\n", Expect: "R5"},
 			{Name: "newline-always-appended", File: "cmd/serf/command/agent/invoke.go", Func: "func streamPayload(", Old: "if len(payload) > 0 && payload[len(payload)-1] != '\\n' {", New: "if len(payload) > 0 {", Expect: "R5"},
+			{Name: "empty-reload-ignored", File: "cmd/serf/command/agent/event_handler.go", Func: "func (h *ScriptEventHandler) HandleEvent(", Old: "if h.newScripts != nil {", New: "if len(h.newScripts) > 0 {", Expect: "R6|HandleEvent:installs-pending"},
+			{Name: "reload-hands-nil-list", File: "cmd/serf/command/agent/config.go", Func: "func (c *Config) EventScripts(", Old: "\tresult := make([]EventScript, 0, len(c.EventHandlers))\n", New: "\tvar result []EventScript\n", Expect: "R6|UpdateScripts-caller"},
 			{Name: "script-runs-without-filter", File: "cmd/serf/command/agent/event_handler.go", Func: "func (h *ScriptEventHandler) HandleEvent(", Old: "\t\tif !script.Invoke(e) {\n\t\t\tcontinue\n\t\t}\n", New: "\t\tif !script.Invoke(e) && script.Event != \"\" {\n\t\t\tcontinue\n\t\t}\n", Expect: "R4"},
 		},
 	})
@@ -345,6 +347,92 @@ func runC27(c *an.Ctx) {
 		}
 		c.Add(n == 2, "R5", "respond:captures-output", inv, "the script's stdout and stderr are captured in the ring buffer", "field provenance")
 	}
+
+	// ---- R6 "configured" follows a reload: the pending list replaces the current one at the next event
+	c.Rule("R6 reload: UpdateScripts stores its argument as the pending list under the lock; HandleEvent installs a pending list whenever one is pending (condition: pending != nil, nothing else), under the same lock, before it iterates; every list handed to UpdateScripts is non-nil (an empty configuration removes all handlers)")
+	const sl = "ScriptEventHandler.scriptLock"
+	locks := an.NewLocks(c.P)
+	if us := am(c, "R6", "ScriptEventHandler", "UpdateScripts"); us != nil {
+		n := 0
+		for _, st := range an.StoresTo(us, ".newScripts") {
+			n++
+			c.Add(an.Path(st.Val) == "$1" && locks.Held(st).HasW(sl) && len(necessaryFacts(us, st)) == 0, "R6", "UpdateScripts:stores-pending", st, "UpdateScripts records its argument as the pending list, unconditionally, under the lock", "store path + lockset")
+		}
+		c.Floor("R6", "pending-list stores in UpdateScripts", n, 1)
+	}
+	if he := c.P.Method(agent, "ScriptEventHandler", "HandleEvent"); he != nil {
+		n := 0
+		var swap *ssa.Store
+		for _, st := range an.StoresTo(he, ".Scripts") {
+			if an.Path(st.Val) != "$0.newScripts" {
+				c.Add(false, "R6", "HandleEvent:scripts-writer", st, "the current list is only ever replaced by the pending list (stores "+an.Path(st.Val)+")", "store enumeration")
+				continue
+			}
+			n++
+			swap = st
+			extra := ""
+			for _, f := range necessaryFacts(he, st) {
+				if f.L == "$0.newScripts" && f.Op == "!=" && f.R == "c:nil" {
+					continue
+				}
+				extra += f.String() + "; "
+			}
+			c.Add(extra == "" && locks.Held(st).HasW(sl), "R6", "HandleEvent:installs-pending", st, "a pending list is installed whenever there is one (a nil test only; an empty list is a list), under the lock (other conditions: "+extra+")", "necessary-edge enumeration + lockset")
+		}
+		c.Floor("R6", "pending-list installs in HandleEvent", n, 1)
+		if swap != nil {
+			// the iteration reads the list after the swap section
+			for _, r := range an.FieldReads([]*ssa.Function{he}, "ScriptEventHandler", "Scripts") {
+				c.Add(an.Reaches(he, swap, r) && !an.Reaches(he, r, swap), "R6", "HandleEvent:iterates-after-install", r, "the list iterated for this event is read after the pending list was installed", "ordering (reachability)")
+			}
+		}
+	}
+	// every caller hands over a non-nil list
+	var nonNil func(v ssa.Value, seen map[ssa.Value]bool) bool
+	nonNil = func(v ssa.Value, seen map[ssa.Value]bool) bool {
+		if seen[v] {
+			return true
+		}
+		seen[v] = true
+		switch x := v.(type) {
+		case *ssa.MakeSlice:
+			return true
+		case *ssa.Slice:
+			if _, ok := x.X.(*ssa.Alloc); ok {
+				return true
+			}
+			return nonNil(x.X, seen)
+		case *ssa.Phi:
+			for _, e := range x.Edges {
+				if !nonNil(e, seen) {
+					return false
+				}
+			}
+			return true
+		case *ssa.Call:
+			if b, ok := x.Call.Value.(*ssa.Builtin); ok && b.Name() == "append" {
+				return nonNil(x.Call.Args[0], seen)
+			}
+			if f := an.StaticCallee(&x.Call); f != nil && an.InModule(f) && len(f.Blocks) > 0 {
+				for _, r := range an.Returns(f) {
+					if !nonNil(an.ResultValues(r)[0], seen) {
+						return false
+					}
+				}
+				return true
+			}
+		}
+		return false
+	}
+	nu := 0
+	for _, f := range c.P.FuncsIn(agent) {
+		for _, call := range an.CallsTo(f, "(*ScriptEventHandler).UpdateScripts") {
+			nu++
+			a := an.CallOf(call).Args[1]
+			c.Add(nonNil(a, map[ssa.Value]bool{}), "R6", "UpdateScripts-caller:"+an.FuncName(f)+":non-nil-list", call, "the list handed over on reload is never nil, so a configuration without handlers removes the old ones ("+short(an.Path(a))+")", "non-nil provenance (make/append/phi induction)")
+		}
+	}
+	c.Floor("R6", "UpdateScripts call sites", nu, 1)
 }
 
 func appendedConst(call *ssa.Call) ssa.Value {
